@@ -270,7 +270,12 @@ def run_pipelines_with_dask(
     import xarray as xr
 
     # Generate parameters for the pipelines (as a DataArray)
-    params_dataarray: xr.DataArray = parameter_mode.create_params(dim_names=dim_names)
+    if isinstance(parameter_mode, SequentialMode):
+        params_dataarray: xr.DataArray = parameter_mode.create_params(
+            dim_names=dim_names, processor=processor
+        )
+    else:
+        params_dataarray = parameter_mode.create_params(dim_names=dim_names)
 
     # Run the pipeline for the first parameter set to extract metadata
     first_param_tuple: tuple = (
